@@ -15,26 +15,29 @@ Traces == JsonDeserialize(IOEnv.TRACE_FILE)
 VARIABLES tid, verdict
 
 \* events: <<"recv", len>>  <<"call", op, n>>  <<"ret", bytes>>
-RECURSIVE JudgeCalls(_, _, _, _, _)
-JudgeCalls(t, i, pos, op, n) ==
-    IF i > Len(t.events) THEN "ok"
-    ELSE LET e == t.events[i] IN
-         CASE e[1] = "call" -> JudgeCalls(t, i + 1, pos, e[2], e[3])
-           [] e[1] = "ret" /\ op = "write" -> JudgeCalls(t, i + 1, pos, "", 0)   \* outbound: judged by WriteNote, consumes nothing
+\* (folded over the events with FoldLeft: TLC evaluates it iteratively; deep recursive operators cost quadratic time)
+StepCall(S, acc, e) ==
+    IF acc.v # "ok" THEN acc
+    ELSE CASE e[1] = "call" -> [acc EXCEPT !.op = e[2], !.n = e[3]]
+           [] e[1] = "ret" /\ acc.op = "write" -> [acc EXCEPT !.op = "", !.n = 0]   \* outbound: judged by WriteCheck, consumes nothing
            [] e[1] = "ret" ->
-                LET exp == IF op = "read" THEN ExpectRead(t.S, pos, n) ELSE ExpectLine(t.S, pos) IN
+                LET exp == IF acc.op = "read" THEN ExpectRead(S, acc.pos, acc.n) ELSE ExpectLine(S, acc.pos) IN
                 IF e[2] # exp THEN
-                    (IF op = "read" /\ Len(e[2]) \notin {0, n} THEN "C10:read-returned-neither-n-bytes-nor-nothing"
-                     ELSE IF op = "read" THEN "C10:read-returned-wrong-bytes"
-                     ELSE "C10:readline-not-up-to-next-LF")
-                ELSE JudgeCalls(t, i + 1, pos + Len(e[2]), op, n)
-           [] OTHER -> JudgeCalls(t, i + 1, pos, op, n)
+                    [acc EXCEPT !.v = IF acc.op = "read" /\ Len(e[2]) \notin {0, acc.n} THEN "C10:read-returned-neither-n-bytes-nor-nothing"
+                                      ELSE IF acc.op = "read" THEN "C10:read-returned-wrong-bytes"
+                                      ELSE "C10:readline-not-up-to-next-LF"]
+                ELSE [acc EXCEPT !.pos = acc.pos + Len(e[2])]
+           [] OTHER -> acc
+
+JudgeCalls(t) == FoldLeft(LAMBDA acc, e : StepCall(t.S, acc, e), [pos |-> 0, op |-> "", n |-> 0, v |-> "ok"], t.events).v
 
 TotalReceived(t) == FoldLeft(LAMBDA acc, e : IF e[1] = "recv" THEN acc + e[2] ELSE acc, 0, t.events)
 
 JudgeWrapper(t) ==
-    IF TotalReceived(t) # Len(t.S) THEN "triv"     \* the transport ended before delivering everything: not the scenario claimed
-    ELSE JudgeCalls(t, 1, 0, "", 0)
+    \* a REAL transport that ended before delivering everything is not the scenario claimed; a scripted socket delivers everything it is
+    \* asked for, so there every call is judged (a wrapper that stops asking is exactly what must be noticed)
+    IF t.scripted # 1 /\ TotalReceived(t) # Len(t.S) THEN "triv"
+    ELSE JudgeCalls(t)
 
 \* machine conformance: segments = the logged recv results
 RECURSIVE SegsOf(_, _, _)
@@ -80,6 +83,7 @@ WriteCheck(t, i) ==
          IF e[1] = "call" /\ e[2] = "write" THEN
               (IF i + 2 > Len(t.events) THEN "EXT:write-did-not-return"
                ELSE IF t.events[i + 1][1] # "send" \/ t.events[i + 1][2] # e[4] THEN "EXT:write-did-not-pass-the-data-to-send-once"
+               ELSE IF t.events[i + 2][1] = "ret" /\ Len(e[4]) = 9 /\ t.events[i + 2][2][1] = -2 THEN WriteCheck(t, i + 3)   \* scripted send failure, passed on to the caller
                ELSE IF t.events[i + 2][1] # "ret" \/ t.events[i + 2][2] # <<Len(e[4])>> THEN "EXT:write-result-is-not-send-result"
                ELSE WriteCheck(t, i + 3))
          ELSE IF e[1] = "send" THEN "EXT:send-without-write"
